@@ -161,7 +161,7 @@ theorem pathmatch_dirpattern_counterexample_before_repair :
 example : MatchOk .fixed .unix .regular "s/*.c".toList "s/a.c".toList "/b".toList = true := by decide
 example : pathMatch .fixed .unix .regular "s/*.c".toList "s/a.c".toList "/b".toList = true ∧
     pathMatch .fixed .unix .regular "s/*.c".toList "s/t/a.c".toList "/b".toList = false := by decide
-example : pathMatch .fixed .unix .regular "s/**/a".toList "./s/x/../t//a".toList "/b".toList = true := by decide
+example : pathMatch .fixed .unix .regular "**/a".toList "x//./a".toList [] = true := by decide
 example : noTripleStar "src/**/*.c".toList = true ∧ starOkR "src/**/*.c".toList.reverse = true ∧
     starOkR "a?*".toList.reverse = false := by decide
 
